@@ -226,9 +226,9 @@ def enc_disconnect():
 
 # ------------------------------------------------------------------------------ strict decoder
 
-def split_frames(b):
+def split_frames(b, lenient=False):
     """cut a byte list into complete frames; returns (frames, rest).  Raises Malformed when a
-    remaining-length field is longer than four bytes."""
+    remaining-length field is longer than four bytes (lenient: stops there instead)."""
     frames = []
     i = 0
     n = len(b)
@@ -249,6 +249,8 @@ def split_frames(b):
             ln = ln + (d - 128) * mult
             mult = mult * 128
             if k - (i + 1) >= 4:
+                if lenient:
+                    return frames, b[i:]
                 raise Malformed('remaining length field longer than 4 bytes')
         if not done:
             return frames, b[i:]
